@@ -631,21 +631,31 @@ def check(prop, tier, only=None, keep=False):
                 # long obligations first
                 pu.sort(key=lambda u: -u.get("cost", 1))
                 log("[check] kani: %d obligation(s) in %s, -j %d, harness timeout %ds" % (len(pu), pkg, min(jobs, len(pu)), timeout))
-                # batches bound kani-driver's memory (it keeps every harness's CBMC output in RAM)
-                chunk = int(os.environ.get("VERIF_CHUNK", "40"))
-                batches = [pu[i::max(1, (len(pu) + chunk - 1) // chunk)] for i in range(max(1, (len(pu) + chunk - 1) // chunk))]
-                for bi, batch in enumerate(batches):
-                    log("[check]   batch %d/%d: %d obligation(s)" % (bi + 1, len(batches), len(batch)))
+                # batches bound kani-driver's memory: it keeps every harness's parsed CBMC output until the
+                # end (measured: 8 GB for 36 quick obligations, 17 GB for 40 thorough ones)
+                chunk = int(os.environ.get("VERIF_CHUNK", "40" if tier == "quick" else "12"))
+                nb = max(1, (len(pu) + chunk - 1) // chunk)
+                queue = [(pu[i::nb], False) for i in range(nb)]
+                bi = 0
+                while queue:
+                    batch, is_retry = queue.pop(0)
+                    bi += 1
+                    log("[check]   batch %d (%d more queued): %d obligation(s)%s" % (bi, len(queue), len(batch), " [retry of a lost batch]" if is_retry else ""))
                     try:
                         res, out, wall, tl = run_kani(cat, dst, scratch, pkg, batch, timeout, min(jobs, len(batch)), feats, cargs)
                     except Undecided as e:
                         if "compile-error" in str(e):
                             raise
-                        # kani-driver itself died (e.g. after one of its solvers was killed): the batch is
-                        # undecided, the other batches still count
+                        # kani-driver itself died (killed by the kernel's out-of-memory killer, or after one
+                        # of its solvers was killed).  Once: run the lost obligations again in batches of 3;
+                        # after that they are undecided.  The other batches still count.
                         res, tl = {}, {}
-                        for u in batch:
-                            res[u["name"]] = dict(status="missing", checks=[], reason="batch lost: " + str(e)[-300:].replace("\n", " | "))
+                        if not is_retry and len(batch) > 1:
+                            log("[check]   batch lost (%s); retrying its obligations in batches of 3" % str(e)[-120:].replace("\n", " | "))
+                            queue = [(batch[i:i + 3], True) for i in range(0, len(batch), 3)] + queue
+                        else:
+                            for u in batch:
+                                res[u["name"]] = dict(status="missing", checks=[], reason="batch lost: " + str(e)[-300:].replace("\n", " | "))
                     tools.update(tl)
                     results.update(res)
         if verus_units:
